@@ -170,7 +170,12 @@ impl E2Run for Sock {
             }
             let net = nb.build();
             sim::network_index(Arc::as_ptr(&net) as usize);
-            let server_ep = Endpoint::new(Ipv4Address::new([10, 0, 0, 1]), 8000);
+            // addresses and the listening port differ from run to run: which entries of the stack's
+            // sharded tables (sessions, listen bindings) share a lock depends on them
+            let subnet = [10, sim::choose(4) as u8, sim::choose(256) as u8];
+            let first_host = 1 + sim::choose(240) as u8;
+            let server_ip = [subnet[0], subnet[1], subnet[2], first_host];
+            let server_ep = Endpoint::new(Ipv4Address::new(server_ip), 1024 + sim::choose(60_000) as u16);
             let mk_machine = |ip: [u8; 4], net: &Arc<Network>| {
                 let table: IpTable<Recipient> = [("0.0.0.0/0", Recipient::new(0, None))].into_iter().collect();
                 let m = Machine::new()
@@ -310,13 +315,18 @@ impl E2Run for Sock {
                 }
                 ctx.shutdown.shut_down();
             });
-            let mut machines = vec![mk_machine([10, 0, 0, 1], &net).with(server_app).arc()];
+            let mut machines = vec![mk_machine(server_ip, &net).with(server_app).arc()];
 
             // ---- clients
+            let colocate = n_clients >= 2 && sim::chance(1, 4);
+            if colocate {
+                sim::count("probe_two_client_sockets_on_one_machine");
+            }
+            let mut pending_machine: Option<Machine> = None;
             for (c, writes, start_delay, read_sizes) in client_plans {
                 let clog = log2.clone();
                 let expect_reply = expect_reply_global;
-                let app = App::<0>::new(c + 1).script(move |ctx: Ctx| async move {
+                let script = move |ctx: Ctx| async move {
                     if start_delay > 0 {
                         tokio::time::sleep(Duration::from_millis(start_delay)).await;
                     }
@@ -326,7 +336,7 @@ impl E2Run for Sock {
                         let machine = ctx.machine.clone();
                         elvis_core::verif::tokio::spawn(async move {
                             if let Ok(mut s) = api.new_socket(ProtocolFamily::INET, SocketType::Stream, machine).await {
-                                let closed = Endpoint::new(server_ep.address, 8001);
+                                let closed = Endpoint::new(server_ep.address, server_ep.port + 1);
                                 let r = tokio::time::timeout(Duration::from_secs(10), s.connect(closed)).await;
                                 sim::count(match r {
                                     Ok(Ok(_)) => "probe_stray_connect_to_closed_port_returned_ok",
@@ -379,8 +389,20 @@ impl E2Run for Sock {
                         tokio::time::sleep(Duration::from_secs(100)).await;
                         drop(sock);
                     }
-                });
-                machines.push(mk_machine([10, 0, 0, 2 + c as u8], &net).with(app).arc());
+                };
+                // in a quarter of the runs with several clients, clients 0 and 1 are two sockets of one machine
+                if colocate && c == 1 {
+                    let m = pending_machine.take().expect("client 0's machine");
+                    pending_machine = Some(m.with(App::<1>::new(1).script(script)));
+                } else {
+                    if let Some(m) = pending_machine.take() {
+                        machines.push(m.arc());
+                    }
+                    pending_machine = Some(mk_machine([subnet[0], subnet[1], subnet[2], first_host + 1 + c as u8], &net).with(App::<0>::new(c + 1).script(script)));
+                }
+            }
+            if let Some(m) = pending_machine.take() {
+                machines.push(m.arc());
             }
             // faults stop once every client has finished writing (plus a grace period)
             elvis_core::verif::tokio::spawn(async move {
